@@ -483,6 +483,16 @@ def tlaps_prove(module, edits=(), timeout=900):
         open(path, "w").write(text.replace(old, new))
     rc, out = sh(["tlapm", "--threads", "4", "--cleanfp", module], timeout=timeout, cwd=d)
     m = re.search(r"All (\d+) obligations? proved", out)
+    # an obligation no back end proves (every proof mutant has one) is handed to Isabelle last, whose
+    # poly process runs in a process group of its own and outlives tlapm by an hour at full load: whatever
+    # still works in the scratch directory is ended with it
+    for pid in os.listdir("/proc"):
+        if pid.isdigit():
+            try:
+                if os.readlink("/proc/%s/cwd" % pid).startswith(d):
+                    os.kill(int(pid), 9)
+            except OSError:
+                pass
     shutil.rmtree(d, ignore_errors=True)
     return (m is not None and rc == 0), (int(m.group(1)) if m else 0), out[-1500:]
 
